@@ -114,7 +114,7 @@ def run(ctx, prog, only=None):
         if missing:
             return 'embedded method inserted without checking that its id is not already referenced from %s' % ', '.join(missing)
         return None if (v[0] == 'agg' and str(v[2]) == 'Embed' and strip(v[3][0]) == ('leaf', 'method')) else 'relationship method not embedded as given'
-    A.require('insert_method/unique-id-then-exactly-the-set-of-the-scope', paths, r_im, replay={'scenario': 'document_ops', 'cex': {'only': '[insert]'}})
+    A.require('insert_method/unique-id-then-exactly-the-set-of-the-scope', paths, r_im, replay=[{'scenario': 'document_ops', 'cex': {'only': '[insert]'}}, {'scenario': 'document_ops', 'cex': {'only': '[query-reference]'}}])
 
     # ------------------------------------------------------------------------------------------- remove_method_and_scope
     # the id is removed from every relationship set (references included) on every way out; unless an embedded method
